@@ -50,3 +50,14 @@ Definition project (g : gval) : sval :=
   match g with GStr s => SStr s | GBool b => SBool b | GNum _ z => SInt z | GFlt _ f => SFloat f | GOth => SOther end.
 
 Definition not_crash {A} (o : outcome A) : bool := match o with Crash => false | _ => true end.
+
+(* what arrives at a parameter of kind k for a matching, convertible script value: the value
+   itself, carried by a Go value of kind k (a float64 at a float32 parameter arrives as the
+   nearest float32) *)
+Definition arrive (lib : golib) (k : gkind) (v : sval) : gval :=
+  match v, k with
+  | SFloat f, KFloat32 => GFlt KFloat32 (f32 lib f)
+  | _, _ => inject k v
+  end.
+(* script ints are 64-bit *)
+Definition wf (v : sval) : bool := match v with SInt z => (minint <=? z) && (z <=? maxint) | _ => true end.
